@@ -121,8 +121,11 @@ def get_content_type_contract():
         S = z3.StringSort()
         mime = z3.Function("email_message_content_type", S, S)
         override = SStr(z3.Const("override_value", S))
-        overrides = LazyMap("content_type_overrides", lambda I2, k: override)
         ct = SStr(z3.Const("content_type", S))
+        # the table either maps the document's media type to an override or does not contain it (harness choice, so the
+        # contract does not depend on whether the code looks it up)
+        has = I.branch_free()
+        overrides = LazyMap("content_type_overrides", None, [(ct, override)] if has else [], absent=[] if has else [ct], complete=True)
 
         class Msg(SOpaque):
             def __init__(self):
@@ -140,13 +143,13 @@ def get_content_type_contract():
         I.lib = dict(I.lib)
         I.lib[Message] = lambda I2, a, k: Msg()
         config = SOpaque("config", attrs={"content_type_overrides": overrides})
-        return SFunc("pyfunc", U.get_content_type), [ct, config], {}, {"ct": ct, "overrides": overrides, "override": override, "mime": mime}
+        return SFunc("pyfunc", U.get_content_type), [ct, config], {}, {"ct": ct, "overrides": overrides, "override": override, "mime": mime,
+                                                                          "has": has}
 
     def post(ctx):
         I = ctx.I
         i = ctx.inputs
-        found = any(v is i["override"] for _, v in i["overrides"].entries)
-        eff = i["override"].t if found else i["ct"].t         # the media type the document's one is to behave as
+        eff = i["override"].t if i["has"] else i["ct"].t      # the media type the document's one is to behave as
         parsed = i["mime"](eff)
         v = ctx.value
         ok = z3.PrefixOf(parsed, eff)
